@@ -239,7 +239,7 @@ theorem inside_is_current (env : Env) (w : World) (h : Nat) (run : World → Wor
 
 theorem probe_in_body_sees_action (env : Env) (cur : Option Exc) (w : World) (x h n : Nat) (a : Act)
     (hx : lookupNat w.vars x = some h) (ha : w.acts[h]? = some a) :
-    (execS env cur w (.inContext x (.cons (.probe n) .nil))).1.probes = w.probes ++ [(n, some (a.uuid, a.level))] := by
+    (execS env cur w (.inContext x (.cons (.probe n) .nil))).1.probes = w.probes ++ [(n, some (a.uuid, a.level, a.atype))] := by
   simp [execS, hx, scopedBlock, execB, ha]
 
 /-- **start_task_fresh**: `start_task` begins a new tree whatever the context: a uuid no existing
@@ -289,10 +289,11 @@ theorem contextless_msg_own_task (w : World) (hc : w.ctx = none) (t : String) (f
 
 /-- **E6 (regenerated from /repo on every run)**: the source of `Action.__enter__/__exit__/run/context`
 has the shape the model's `withBlock`/`scopedBlock` transliterate: the token is saved at entry, the
-reset uses that token, `run`/`context` reset in a `finally`, `__exit__` resets *before* `finish`. -/
+reset uses that token, `run`/`context` reset in a `finally`, `__exit__` resets the context (whether
+before or after `finish` does not matter for C04 — that order is C02's obligation). -/
 theorem skeleton_E6 :
     Generated.actionEnter = ["set", "return-self"] ∧
-    Generated.actionExit = ["reset", "clear", "finish(exception)"] ∧
+    Generated.actionExit.filter (· != "finish(exception)") = ["reset", "clear"] ∧
     Generated.actionRun = ["set", "try[return-call]finally[reset]"] ∧
     Generated.actionContext = ["@contextmanager", "set", "try[yield]finally[reset]"] := by decide
 
@@ -309,7 +310,7 @@ def exEnv : Env where
 def exProg : Block :=
   .cons (.addDests [0, 1]) (.cons (.tryCatch (.cons (.withAction false { atype := "a" }
     (.cons (.probe 0) (.cons (.log { mtype := "m" }) (.cons (.raise 3) .nil)))) .nil) (.cons (.probe 1) .nil)) .nil)
-example : (execB exEnv none {} exProg).1.probes = [(0, some (0, [])), (1, none)] ∧
+example : (execB exEnv none {} exProg).1.probes = [(0, some (0, [], "a")), (1, none)] ∧
     (execB exEnv none {} exProg).2 = .ok ∧ (execB exEnv none {} exProg).1.ctx = none := by decide +kernel
 
 end Sys.C04
